@@ -28,6 +28,7 @@ Definition sRes {X} (f : X -> sexp) (r : res X) : sexp :=
 Definition is_space (c : N) : bool :=
   existsb (N.eqb c) [9;10;11;12;13;28;29;30;31;32;133;160;5760;8192;8193;8194;8195;8196;8197;8198;
                      8199;8200;8201;8202;8232;8233;8239;8287;12288]%N.
+Arguments is_space : simpl never.
 Definition is_upper (c : N) : bool := (65 <=? c)%N && (c <=? 90)%N.
 Definition is_lower (c : N) : bool := (97 <=? c)%N && (c <=? 122)%N.
 Definition is_ascii_alpha (c : N) : bool := is_upper c || is_lower c.
